@@ -624,6 +624,12 @@ def _term_local(bf, local, depth, seen):
     if kind == 'call':
         t = obj
         c = strip_generics(t.callee_best() or '?')
+        cc = t.func.const if t.func is not None else None
+        if cc and cc.get('trait') in ('core::convert::From', 'core::convert::Into') and len(t.args) == 1 and len(cc.get('ga') or []) == 2 \
+                and all(g in _PRIM_INTS for g in cc['ga']):
+            # lossless conversion between primitive integers (`usize::from(x)`, `x.into()`): the same value as the widening `as`
+            dst, src = (cc['ga'][0], cc['ga'][1]) if cc['trait'].endswith('From') else (cc['ga'][1], cc['ga'][0])
+            return ('cast', dst, _term_operand(bf, t.args[0], depth + 1, seen), src)
         return ('call', c, tuple(_term_operand(bf, a, depth + 1, seen) for a in t.args), bb)
     return ('phi', local)
 
@@ -638,6 +644,9 @@ def term_of_local(bf, local):
 
 def term_of_place(bf, place):
     return _term_place(bf, place, 0, frozenset())
+
+
+_PRIM_INTS = ('u8', 'u16', 'u32', 'u64', 'u128', 'usize', 'i8', 'i16', 'i32', 'i64', 'i128', 'isize')
 
 
 def strip_calls_bb(t):
